@@ -35,7 +35,9 @@
 (*   after    the table afterwards                                         *)
 (*                                                                         *)
 (* Clauses(in, o) is the admissible-outcome RELATION.  What the reference  *)
-(* fixes: input rows are processed in order; for each one the records      *)
+(* fixes: input rows are processed in order (a record reached by several   *)
+(* input rows ends with the values of the last one); for each input row    *)
+(* the records                                                             *)
 (* whose cells equal the `require` values - converted to the column types  *)
 (* as lookupRecords does - are looked up; with a match and update allowed, *)
 (* the first (lowest id) / all / none of several matches (a single match   *)
